@@ -954,7 +954,7 @@ theorem rinvAt_route (r : Nat) (rs : RouterSt) (h : RInvAt script t r rs) (rec :
       · exact Or.inr ⟨treg, a, by omega, by simp only [List.mem_append]; exact Or.inl c⟩
   · have hw' : rs.warmed = false := by simpa using hw
     simp only [hw', Bool.false_eq_true, if_false]
-    refine ⟨by simp only []; rw [h.mw, hmw], ?_, ?_, ?_, fun hx => (hw hx).elim⟩
+    refine ⟨by simp only []; rw [h.mw, hmw], ?_, ?_, ?_, fun hx => by simp at hx⟩
     · intro rc hr
       simp only [List.mem_append, List.mem_singleton] at hr
       rcases hr with hr | rfl
@@ -971,5 +971,464 @@ theorem rinvAt_route (r : Nat) (rs : RouterSt) (h : RInvAt script t r rs) (rec :
       · exact Or.inr ⟨treg, a, by omega, c⟩
 
 end
+
+def NoMount (script : List Op) : Prop := ∀ op ∈ script, isMount op = false
+
+theorem routers_length (script : List Op) (hnm : NoMount script) :
+    ∀ t, t ≤ script.length → (W script t).routers.length = 1 + cnt isNewRouter script t := by
+  intro t
+  induction t with
+  | zero => intro _; rw [W_zero]; simp [cnt]
+  | succ t ih =>
+    intro ht
+    have htl : t < script.length := ht
+    have hm := hnm script[t] (List.getElem_mem htl)
+    have hs := rstep (W script t) script[t] hm
+    rw [← W_succ script t htl] at hs
+    have hcnt := cnt_succ isNewRouter script t htl
+    have ih' := ih (Nat.le_of_lt htl)
+    cases hs with
+    | new h1 h2 => rw [h2, hcnt, h1]; simp [isNewRouter, ih']; omega
+    | use r hs h1 h2 h3 h4 =>
+      have : isNewRouter script[t] = false := by
+        cases hop : script[t] <;> simp [isNewRouter] <;> rw [hop] at h1 <;> simp [selUse] at h1
+      rw [h3, modifyAt_length, hcnt, this, ih']; simp
+    | warm r h1 h2 => rw [h2, modifyAt_length, hcnt, h1, ih']; simp [isNewRouter]
+    | route r rec h1 h2 h3 =>
+      have : isNewRouter script[t] = false := by
+        cases hop : script[t] <;> simp [isNewRouter] <;> rw [hop] at h1 <;> simp [routeRecOf] at h1
+      rw [h3, modifyAt_length, hcnt, this, ih']; simp
+    | same h1 h2 h3 h4 h5 =>
+      have : isNewRouter script[t] = false := by
+        cases hop : script[t] <;> simp [isNewRouter]
+        exact h3 hop
+      rw [h5, hcnt, this, ih']; simp
+
+theorem usesB_router_future_nil (script : List Op) (hwf : WFR script) (r t : Nat)
+    (hr : 1 + cnt isNewRouter script t ≤ r) : usesB script (selUse r) t = [] := by
+  induction t with
+  | zero => exact usesB_zero _ _
+  | succ t ih =>
+    rcases Nat.lt_or_ge t script.length with ht | ht
+    · have hmono := cnt_mono isNewRouter script t (t + 1) (Nat.le_succ t)
+      rw [usesB_succ _ _ _ ht, ih (by omega)]
+      cases hu : selUse r script[t] with
+      | none => rfl
+      | some hs =>
+        have := hwf t script[t] (List.getElem?_eq_getElem ht) r hs hu
+        omega
+    · have h1 : usesB script (selUse r) (t + 1) = usesB script (selUse r) t := by
+        simp [usesB, List.take_of_length_le ht, List.take_of_length_le (Nat.le_succ_of_le ht)]
+      rw [h1]
+      exact ih (by
+        have : cnt isNewRouter script (t + 1) = cnt isNewRouter script t := by
+          simp [cnt, List.take_of_length_le ht, List.take_of_length_le (Nat.le_succ_of_le ht)]
+        omega)
+
+theorem rinv (script : List Op) (hnm : NoMount script) (hwf : WFR script) :
+    ∀ t, t ≤ script.length → ∀ r rs, (W script t).routers[r]? = some rs → RInvAt script t r rs := by
+  intro t
+  induction t with
+  | zero =>
+    intro _ r rs h
+    rw [W_zero] at h
+    have : r = 0 ∧ rs = {} := by
+      cases r with
+      | zero => simp at h; exact ⟨rfl, h.symm⟩
+      | succ r => simp at h
+    obtain ⟨rfl, rfl⟩ := this
+    exact ⟨by simp [usesB_zero], by simp, by simp, by intro i op rec0 _ h2; omega, by simp⟩
+  | succ t ih =>
+    intro ht r rs hr
+    have htl : t < script.length := ht
+    have ih' := ih (Nat.le_of_lt htl)
+    have hm := hnm script[t] (List.getElem_mem htl)
+    have hs := rstep (W script t) script[t] hm
+    rw [← W_succ script t htl] at hs
+    have hlen := routers_length script hnm t (Nat.le_of_lt htl)
+    cases hs with
+    | new h1 h2 =>
+      rw [h2] at hr
+      have hsel : ∀ r', selUse r' script[t] = none := by intro r'; rw [h1]; rfl
+      have hrec : routeRecOf (W script t) script[t] = none := by rw [h1]; rfl
+      rcases Nat.lt_or_ge r (W script t).routers.length with hlt | hge
+      · rw [List.getElem?_append_left hlt] at hr
+        exact rinvAt_keep script t htl r rs (ih' r rs hr) (hsel r) (by intro rec0; rw [hrec]; simp)
+      · rw [List.getElem?_append_right hge] at hr
+        have hr0 : r = (W script t).routers.length := by
+          cases hx : r - (W script t).routers.length with
+          | zero => omega
+          | succ j => rw [hx] at hr; simp at hr
+        simp [hr0] at hr
+        subst hr
+        refine ⟨?_, by simp, by simp, ?_, by simp⟩
+        · show ([] : List Hid) = _
+          rw [usesB_succ _ _ _ htl, hsel r, usesB_router_future_nil script hwf r t (by omega)]; rfl
+        · intro i op rec0 h1' h2' h3' h4'
+          have hli := routers_length script hnm i (by omega)
+          have := cnt_mono isNewRouter script i t (by omega)
+          omega
+    | use r0 hs h1 h2 h3 h4 =>
+      rw [h3, modifyAt_getElem?] at hr
+      by_cases hrr : r0 = r
+      · subst hrr
+        simp only [if_true] at hr
+        cases hold : (W script t).routers[r0]? with
+        | none => rw [hold] at hr; simp at hr
+        | some rs0 =>
+          rw [hold] at hr; simp at hr; subst hr
+          exact rinvAt_use script t htl r0 rs0 (ih' r0 rs0 hold) hs h1 h4
+      · simp only [hrr, if_false] at hr
+        exact rinvAt_keep script t htl r rs (ih' r rs hr) (h2 r (Ne.symm hrr)) (by intro rec0; rw [h4]; simp)
+    | warm r0 h1 h2 =>
+      have hsel : ∀ r', selUse r' script[t] = none := by intro r'; rw [h1]; rfl
+      have hrec : routeRecOf (W script t) script[t] = none := by rw [h1]; rfl
+      rw [h2, modifyAt_getElem?] at hr
+      by_cases hrr : r0 = r
+      · subst hrr
+        simp only [if_true] at hr
+        cases hold : (W script t).routers[r0]? with
+        | none => rw [hold] at hr; simp at hr
+        | some rs0 =>
+          rw [hold] at hr; simp at hr; subst hr
+          exact rinvAt_warm script t htl r0 rs0 (ih' r0 rs0 hold) (hsel r0) hrec
+      · simp only [hrr, if_false] at hr
+        exact rinvAt_keep script t htl r rs (ih' r rs hr) (hsel r) (by intro rec0; rw [hrec]; simp)
+    | route r0 rec h1 h2 h3 =>
+      rw [h3, modifyAt_getElem?] at hr
+      by_cases hrr : r0 = r
+      · subst hrr
+        simp only [if_true] at hr
+        cases hold : (W script t).routers[r0]? with
+        | none => rw [hold] at hr; simp at hr
+        | some rs0 =>
+          rw [hold] at hr; simp at hr; subst hr
+          exact rinvAt_route script t htl r0 rs0 (ih' r0 rs0 hold) rec (h2 r0) h1
+      · simp only [hrr, if_false] at hr
+        exact rinvAt_keep script t htl r rs (ih' r rs hr) (h2 r) (by
+          intro rec0 hx; rw [h1] at hx; cases hx; exact hrr rfl)
+    | same h1 h2 h3 h4 h5 =>
+      rw [h5] at hr
+      exact rinvAt_keep script t htl r rs (ih' r rs hr) (h2 r) (by intro rec0; rw [h1]; simp)
+
+/-! ### the matcher -/
+
+theorem subseqRemainders_mem (may s c : List Hid) (h : s.Sublist may) : c ∈ subseqRemainders may (s ++ c) := by
+  induction h with
+  | slnil => simp [subseqRemainders]
+  | cons a _ ih =>
+    simp only [subseqRemainders, List.mem_append]
+    exact Or.inl ih
+  | cons_cons a _ ih =>
+    simp only [subseqRemainders, List.cons_append, List.mem_append, if_true]
+    exact Or.inr ih
+
+theorem matchLevels_cons (must may s c : List Hid) (ls : List Level) (hs : s.Sublist may)
+    (hc : matchLevels ls c = true) : matchLevels ((must, may) :: ls) (must ++ s ++ c) = true := by
+  simp only [matchLevels, Bool.and_eq_true, List.any_eq_true]
+  refine ⟨by simp [List.append_assoc], c, ?_, hc⟩
+  have : (must ++ s ++ c).drop must.length = s ++ c := by simp [List.append_assoc]
+  rw [this]
+  exact subseqRemainders_mem may s c hs
+
+theorem matchLevels_musts (ls : List Level) (hs : List Hid) :
+    matchLevels (ls ++ [(hs, [])]) ((ls.map (·.1)).flatten ++ hs) = true := by
+  induction ls with
+  | nil =>
+    have := matchLevels_cons hs [] [] [] [] (List.Sublist.refl _) (by simp [matchLevels])
+    simpa using this
+  | cons l ls ih =>
+    obtain ⟨m, y⟩ := l
+    have := matchLevels_cons m y [] _ _ (List.nil_sublist _) ih
+    simpa [List.append_assoc] using this
+
+/-! ### a declared route, model vs oracle -/
+
+/-- the path segment a declaring op gives its route -/
+def routeSeg : Op → Option Nat
+  | .route _ seg _ => some seg
+  | .aroute _ seg _ _ _ => some seg
+  | _ => none
+
+/-- well-formed script: every reference points to an object that exists already, and no two
+    routes are declared with the same path segment (the harness numbers them) -/
+structure WF (script : List Op) : Prop where
+  g : groupM.WF script
+  ag : agroupM.WF script
+  avg : avgroupM.WF script
+  r : WFR script
+  segs : ∀ (i j : Nat) (opi opj : Op) (sg : Nat), script[i]? = some opi → script[j]? = some opj →
+    routeSeg opi = some sg → routeSeg opj = some sg → i = j
+  own : ∀ (t : Nat) (op : Op), script[t]? = some op →
+    match op with
+    | .route (.group g) _ _ => g < cnt isGroupCreate script t
+    | .route (.vrouter v) _ _ => v < cnt isVRouterCreate script t
+    | .route (.vgroup vg) _ _ => vg < cnt isVGroupCreate script t
+    | .aroute (.agroup g) _ _ _ _ => g < cnt isAGroupCreate script t
+    | .aroute (.avgroup vg) _ _ _ _ => vg < cnt isAVGroupCreate script t
+    | .vgroup v _ _ => v < cnt isVRouterCreate script t
+    | _ => True
+
+theorem routeRecOf_seg (w : World) (op : Op) (r : Nat) (rec : RouteRec) (h : routeRecOf w op = some (r, rec)) :
+    ∃ sg, routeSeg op = some sg ∧ rec.path.getLast? = some sg := by
+  cases op with
+  | route o seg hs =>
+    refine ⟨seg, rfl, ?_⟩
+    cases o with
+    | router r' => simp [routeRecOf] at h; obtain ⟨_, rfl⟩ := h; rfl
+    | group g => simp [routeRecOf] at h; obtain ⟨p, _, _, rfl⟩ := h; simp
+    | vrouter v => simp [routeRecOf] at h; obtain ⟨a, b, _, _, rfl⟩ := h; rfl
+    | vgroup vg =>
+      cases hg : w.vgroups[vg]? with
+      | none => simp [routeRecOf, hg] at h
+      | some p =>
+        cases hv : w.vrouters[p.owner]? with
+        | none => simp [routeRecOf, hg, hv] at h
+        | some x => simp [routeRecOf, hg, hv] at h; obtain ⟨_, rfl⟩ := h; simp
+  | aroute o seg b hh a =>
+    refine ⟨seg, rfl, ?_⟩
+    cases o with
+    | app => simp [routeRecOf] at h; obtain ⟨_, rfl⟩ := h; rfl
+    | agroup g => simp [routeRecOf] at h; obtain ⟨p, _, _, rfl⟩ := h; simp
+    | avgroup vg =>
+      cases hg : w.avgroups[vg]? with
+      | none => simp [routeRecOf, hg] at h
+      | some p =>
+        cases hv : w.vrouters[p.owner]? with
+        | none => simp [routeRecOf, hg, hv] at h
+        | some x => simp [routeRecOf, hg, hv] at h; obtain ⟨_, rfl⟩ := h; simp
+  | _ => simp [routeRecOf] at h
+
+theorem lt_of_getElem? {α} {l : List α} {i : Nat} {x : α} (h : l[i]? = some x) : i < l.length := by
+  rcases Nat.lt_or_ge i l.length with h' | h'
+  · exact h'
+  · rw [List.getElem?_eq_none h'] at h; cases h
+
+theorem vrouterOf_of_model (script : List Op) (t v r ver : Nat) (ht : t ≤ script.length)
+    (h : (W script t).vrouters[v]? = some (r, ver)) : vrouterOf script v = some (r, ver) := by
+  obtain ⟨i, op, h1, h2, h3, h4⟩ := (ainv vrouterA vrouterA_ok script t ht).2 v (r, ver) h
+  have hil := lt_of_getElem? h1
+  have hopi : script[i] = op := by
+    have := List.getElem?_eq_getElem hil
+    rw [this] at h1; exact Option.some.inj h1
+  have hc : isVRouterCreate op = true := by
+    have := vrouterA_ok.isC_iff (W script i) op
+    rw [h4] at this; exact this
+  have hnth : nthIdx script isVRouterCreate v = some i := by
+    have := nthIdx_of_created isVRouterCreate script i hil (by rw [hopi]; exact hc)
+    rw [show cnt isVRouterCreate script i = v from h3] at this; exact this
+  simp only [vrouterOf, hnth, Option.bind_eq_bind, Option.bind_some, h1]
+  cases op <;> simp [vrouterA] at h4
+  case version r' ver' => obtain ⟨rfl, rfl⟩ := h4; rfl
+  case aversion ver' => obtain ⟨rfl, rfl⟩ := h4; rfl
+
+theorem routeInfo_of_model (script : List Op) (hwf : WF script) (i : Nat) (op : Op) (r : Nat) (rec0 : RouteRec)
+    (hi : script[i]? = some op) (hrec : routeRecOf (W script i) op = some (r, rec0)) :
+    ∃ gls hs, routeInfo script i = some (r, rec0.ver, rec0.path, gls, hs) ∧
+      rec0.hs = (gls.map (·.1)).flatten ++ hs := by
+  have hil := lt_of_getElem? hi
+  have hile : i ≤ script.length := Nat.le_of_lt hil
+  cases op with
+  | route o seg hs =>
+    cases o with
+    | router r' =>
+      simp [routeRecOf] at hrec
+      obtain ⟨rfl, rfl⟩ := hrec
+      exact ⟨[], hs, by simp [routeInfo, hi], by simp⟩
+    | group g =>
+      simp [routeRecOf] at hrec
+      obtain ⟨p, hp, rfl, rfl⟩ := hrec
+      obtain ⟨ri, rop, ls, h1, h2, h3, h4, h5⟩ := genLevels_of_model groupM groupM_ok script hwf.g g i p hile hp
+      refine ⟨ls, hs, ?_, by simp [h2]⟩
+      simp only [routeInfo, hi]
+      show (genLevels groupC script (g + 1) g i).bind _ = _
+      rw [show genLevels groupC script (g + 1) g i = some (ri, p.pre, ls) from h1]
+      simp only [Option.bind_some, h3]
+      cases rop <;> simp [groupM, groupC] at h4
+      case group r' seg' hs' =>
+        simp [groupM] at h5
+        simp [h5]
+    | vrouter v =>
+      simp [routeRecOf] at hrec
+      obtain ⟨r', ver, hv, rfl, rfl⟩ := hrec
+      refine ⟨[], hs, ?_, by simp⟩
+      simp only [routeInfo, hi]
+      rw [vrouterOf_of_model script i v r' ver hile hv]
+      rfl
+    | vgroup vg =>
+      cases hp : (W script i).vgroups[vg]? with
+      | none => simp [routeRecOf, hp] at hrec
+      | some p =>
+      cases hv : (W script i).vrouters[p.owner]? with
+      | none => simp [routeRecOf, hp, hv] at hrec
+      | some x =>
+      obtain ⟨r', ver⟩ := x
+      simp [routeRecOf, hp, hv] at hrec
+      obtain ⟨rfl, rfl⟩ := hrec
+      obtain ⟨j, opj, g1, g2, g3, g4⟩ := (ainv vgroupA vgroupA_ok script i hile).2 vg p hp
+      have hjl := lt_of_getElem? g1
+      have hopj : script[j] = opj := by
+        have := List.getElem?_eq_getElem hjl
+        rw [this] at g1; exact Option.some.inj g1
+      have hc : isVGroupCreate opj = true := by
+        have := vgroupA_ok.isC_iff (W script j) opj
+        rw [g4] at this; exact this
+      have hnth : nthIdx script isVGroupCreate vg = some j := by
+        have := nthIdx_of_created isVGroupCreate script j hjl (by rw [hopj]; exact hc)
+        rw [show cnt isVGroupCreate script j = vg from g3] at this; exact this
+      cases opj <;> simp [vgroupA] at g4
+      case vgroup v gseg ghs =>
+        subst g4
+        refine ⟨[(ghs, [])], hs, ?_, by simp⟩
+        simp only [routeInfo, hi, hnth, Option.bind_eq_bind, Option.bind_some, g1]
+        rw [vrouterOf_of_model script i v r' ver hile hv]
+        rfl
+  | aroute o seg b hh a =>
+    cases o with
+    | app =>
+      simp [routeRecOf] at hrec
+      obtain ⟨rfl, rfl⟩ := hrec
+      exact ⟨[], b ++ [hh] ++ a, by simp [routeInfo, hi], by simp⟩
+    | agroup g =>
+      simp [routeRecOf] at hrec
+      obtain ⟨p, hp, rfl, rfl⟩ := hrec
+      obtain ⟨ri, rop, ls, h1, h2, h3, h4, h5⟩ := genLevels_of_model agroupM agroupM_ok script hwf.ag g i p hile hp
+      refine ⟨ls, b ++ [hh] ++ a, ?_, by simp [h2]⟩
+      simp only [routeInfo, hi]
+      show (genLevels agroupC script (g + 1) g i).bind _ = _
+      rw [show genLevels agroupC script (g + 1) g i = some (ri, p.pre, ls) from h1]
+      rfl
+    | avgroup vg =>
+      cases hp : (W script i).avgroups[vg]? with
+      | none => simp [routeRecOf, hp] at hrec
+      | some p =>
+      cases hv : (W script i).vrouters[p.owner]? with
+      | none => simp [routeRecOf, hp, hv] at hrec
+      | some x =>
+      obtain ⟨r', ver⟩ := x
+      simp [routeRecOf, hp, hv] at hrec
+      obtain ⟨rfl, rfl⟩ := hrec
+      obtain ⟨ri, rop, ls, h1, h2, h3, h4, h5⟩ := genLevels_of_model avgroupM avgroupM_ok script hwf.avg vg i p hile hp
+      have hril := lt_of_getElem? h3
+      refine ⟨ls, b ++ [hh] ++ a, ?_, by simp [h2]⟩
+      simp only [routeInfo, hi]
+      show (genLevels avgroupC script (vg + 1) vg i).bind _ = _
+      rw [show genLevels avgroupC script (vg + 1) vg i = some (ri, p.pre, ls) from h1]
+      simp only [Option.bind_some, h3]
+      cases rop <;> simp [avgroupM, avgroupC] at h4
+      case aversion ver' =>
+        -- the version router `app.Version` created at `ri` is entry `p.owner`
+        simp only [avgroupM] at h5
+        obtain ⟨j, opj, g1, g2, g3, g4⟩ := (ainv vrouterA vrouterA_ok script i hile).2 p.owner (r', ver) hv
+        have hlenri := (ainv vrouterA vrouterA_ok script ri (Nat.le_of_lt hril)).1
+        have hcj : isVRouterCreate opj = true := by
+          have := vrouterA_ok.isC_iff (W script j) opj
+          rw [g4] at this; exact this
+        have hji : j = ri := by
+          apply cnt_inj isVRouterCreate script j ri opj (.aversion ver') g1 h3 hcj rfl
+          rw [show cnt isVRouterCreate script j = p.owner from g3, h5]
+          exact hlenri
+        subst hji
+        rw [h3] at g1
+        cases g1
+        simp [vrouterA] at g4
+        obtain ⟨rfl, rfl⟩ := g4
+        rfl
+  | _ => simp [routeRecOf] at hrec
+
+/-! ### the theorem -/
+
+theorem sublist_flatten {α} {a b : List (List α)} (h : a.Sublist b) : a.flatten.Sublist b.flatten := by
+  induction h with
+  | slnil => exact List.Sublist.refl _
+  | cons x _ ih => exact ih.trans (by simp)
+  | cons_cons x _ ih => simpa using (List.Sublist.refl x).append ih
+
+/-- middleware attached between the declaration `i` and the registration `treg` is a sub-list of
+    what the oracle calls `may` -/
+theorem usesB_split (script : List Op) (sel : Op → Option (List Hid)) (i treg : Nat) (op : Op)
+    (hi : script[i]? = some op) (hsel : sel op = none) (hle : i ≤ treg) :
+    ∃ mid, usesB script sel treg = usesB script sel i ++ mid ∧
+      mid.Sublist (((script.drop (i + 1)).filterMap sel).flatten) := by
+  have hil := lt_of_getElem? hi
+  rcases Nat.eq_or_lt_of_le hle with rfl | hlt
+  · exact ⟨[], by simp, List.nil_sublist _⟩
+  · obtain ⟨k, rfl⟩ : ∃ k, treg = (i + 1) + k := ⟨treg - (i + 1), by omega⟩
+    refine ⟨(((script.drop (i + 1)).take k).filterMap sel).flatten, ?_, ?_⟩
+    · simp only [usesB, List.take_add, List.filterMap_append, List.flatten_append]
+      have : script.take 1 |>.length ≥ 0 := Nat.zero_le _
+      have h1 : (List.take 1 (List.drop i script)).filterMap sel = [] := by
+        rw [List.take_one_drop_eq_of_lt_length hil]
+        have : script[i] = op := by
+          have := List.getElem?_eq_getElem hil
+          rw [this] at hi; exact Option.some.inj hi
+        simp [this, hsel]
+      rw [h1]; simp
+    · exact sublist_flatten ((List.take_sublist k _).filterMap sel)
+
+theorem routeRecOf_exists (script : List Op) (hwf : WF script) (hnm : NoMount script) (i : Nat) (op : Op)
+    (hi : script[i]? = some op) (hseg : (routeSeg op).isSome) :
+    ∃ r rec0, routeRecOf (W script i) op = some (r, rec0) := by
+  have hil := lt_of_getElem? hi
+  have hile : i ≤ script.length := Nat.le_of_lt hil
+  have hown := hwf.own i op hi
+  cases op with
+  | route o seg hs =>
+    cases o with
+    | router r => exact ⟨r, _, rfl⟩
+    | group g =>
+      simp only [] at hown
+      have hlen := (ginv groupM groupM_ok script hwf.g i hile).1
+      have : g < (W script i).groups.length := by rw [show (W script i).groups.length = _ from hlen]; exact hown
+      exact ⟨_, _, by simp [routeRecOf, List.getElem?_eq_getElem this]⟩
+    | vrouter v =>
+      simp only [] at hown
+      have hlen := (ainv vrouterA vrouterA_ok script i hile).1
+      have : v < (W script i).vrouters.length := by rw [show (W script i).vrouters.length = _ from hlen]; exact hown
+      exact ⟨_, _, by simp [routeRecOf, List.getElem?_eq_getElem this]⟩
+    | vgroup vg =>
+      simp only [] at hown
+      have hlen := (ainv vgroupA vgroupA_ok script i hile).1
+      have hvg : vg < (W script i).vgroups.length := by rw [show (W script i).vgroups.length = _ from hlen]; exact hown
+      obtain ⟨j, opj, g1, g2, g3, g4⟩ := (ainv vgroupA vgroupA_ok script i hile).2 vg _ (List.getElem?_eq_getElem hvg)
+      have hownj := hwf.own j opj g1
+      cases opj <;> simp [vgroupA] at g4
+      case vgroup v gseg ghs =>
+        simp only [] at hownj
+        have hlenv := (ainv vrouterA vrouterA_ok script i hile).1
+        have hmono := cnt_mono isVRouterCreate script j i (Nat.le_of_lt g2)
+        have hv : v < (W script i).vrouters.length := by
+          rw [show (W script i).vrouters.length = _ from hlenv]; omega
+        refine ⟨_, _, ?_⟩
+        simp only [routeRecOf, List.getElem?_eq_getElem hvg, Option.bind_some]
+        rw [← g4]
+        simp [List.getElem?_eq_getElem hv]
+  | aroute o seg b hh a =>
+    cases o with
+    | app => exact ⟨0, _, rfl⟩
+    | agroup g =>
+      simp only [] at hown
+      have hlen := (ginv agroupM agroupM_ok script hwf.ag i hile).1
+      have : g < (W script i).agroups.length := by rw [show (W script i).agroups.length = _ from hlen]; exact hown
+      exact ⟨_, _, by simp [routeRecOf, List.getElem?_eq_getElem this]⟩
+    | avgroup vg =>
+      simp only [] at hown
+      have hlen := (ginv avgroupM avgroupM_ok script hwf.avg i hile).1
+      have hvg : vg < (W script i).avgroups.length := by
+        rw [show (W script i).avgroups.length = _ from hlen]; exact hown
+      obtain ⟨ri, rop, ls, h1, h2, h3, h4, h5⟩ := genLevels_of_model avgroupM avgroupM_ok script hwf.avg vg i _ hile
+        (List.getElem?_eq_getElem hvg)
+      -- the root `app.Version` call at `ri` also created version router number `owner`
+      have hril := lt_of_getElem? h3
+      have hri_lt : ri < i := by
+        -- the root ancestor was created before the route is declared: its creation index is below `i`
+        rcases Nat.lt_or_ge ri i with h | h
+        · exact h
+        · exfalso
+          -- `genLevels` only reads creating ops found by `nthIdx` through the model's groups, all `< i`
+          have hlenri := (ainv vrouterA vrouterA_ok script i hile).1
+          sorry
+      sorry
+  | _ => simp [routeSeg] at hseg
 
 end Rivaas.Compose
